@@ -182,6 +182,35 @@ Proof.
   - apply Hb in H. cbn [length]. lia.
 Qed.
 
+(* a later heap that still says the same about every object of an earlier one *)
+Definition heap_ext (h h' : heap) : Prop :=
+  hbound h' /\ forall id t, hget id h = Some t -> hget id h' = Some t.
+
+Lemma heap_ext_refl h : hbound h -> heap_ext h h.
+Proof. intro H. split; auto. Qed.
+
+Lemma heap_ext_trans h1 h2 h3 : heap_ext h1 h2 -> heap_ext h2 h3 -> heap_ext h1 h3.
+Proof. intros [_ A] [B C]. split; auto. Qed.
+
+Lemma heap_ext_fresh h t : hbound h -> heap_ext h ((hfresh h, t) :: h).
+Proof.
+  intro Hb. split; [apply hbound_cons_fresh; exact Hb|].
+  intros id t' H. cbn. destruct (Z.eqb_spec id (hfresh h)) as [->|]; [|exact H].
+  rewrite hget_fresh in H by exact Hb. discriminate.
+Qed.
+
+Lemma heap_ext_same h id t : hbound h -> hget id h = Some t -> heap_ext h ((id, t) :: h).
+Proof.
+  intros Hb Hg. split; [eapply hbound_cons_old; eauto|].
+  intros id' t' H. cbn. destruct (Z.eqb_spec id' id) as [->|]; [congruence|exact H].
+Qed.
+
+Lemma same_globals_eq a b : same_globals a b = true -> a = b.
+Proof.
+  destruct a, b. unfold same_globals. cbn. intro H. apply andb_true_iff in H. destruct H as [H1 H2].
+  apply N.eqb_eq in H1, H2. congruence.
+Qed.
+
 (* ------------------------------------------------------------------ the two copies agree *)
 Lemma cca_ext v c s key gl (l1 l2 : unit -> res tmpl) :
   l1 tt = l2 tt -> check_cache_async v c s key gl l1 = check_cache_async v c s key gl l2.
@@ -323,6 +352,18 @@ Section Transparent.
     - intros HF k id t Hin Hg. apply Hsub in Hin. exact (HF _ _ _ Hin Hg).
   Qed.
 
+  (* a hit: the cache may have been reordered, objects were only added *)
+  Lemma keep_path s cache1 h' :
+    Inv s -> (forall x, In x (items cache1) -> In x (items (st_cache s))) -> heap_ext (st_heap s) h' ->
+    let s' := {| st_cache := cache1; st_heap := h'; st_store := st_store s |} in
+    Inv s' /\ (Fresh s -> Fresh s').
+  Proof.
+    intros [Hb Hc] Hsub [Hb' Hext] s'. split; [split; [exact Hb'|]|].
+    - intros k id Hin. apply Hsub in Hin. destruct (Hc _ _ Hin) as (t & Ht & Hg). exists t. split; auto.
+    - intros HF k id t Hin Hg. apply Hsub in Hin. destruct (Hc _ _ Hin) as (t0 & Ht0 & _).
+      cbn in Hg. rewrite (Hext _ _ Ht0) in Hg. inversion Hg; subst. exact (HF _ _ _ Hin Ht0).
+  Qed.
+
   (* One request.  A template returned is what a non-caching loader returns for this request, except
      possibly for the version of the source; an error is returned only when the source is not there.
      Under auto-reload with a working uptodate check, and whenever every cached template is current, the
@@ -354,37 +395,41 @@ Section Transparent.
       assert (Hup : exists b, (if auto_reload c then up_to_date c (st_store s) cached else Ok true) = Ok b).
       { destruct (auto_reload c); [apply up_to_date_answers|eexists; reflexivity]. }
       destruct Hup as [b Hup]. rewrite Hup. destruct b.
-      + (* served from the cache, with this request's globals *)
-        cbn [fixed v_globals_if].
+      + (* served from the cache: the cached object itself, or a copy bound to this request's globals *)
+        cbn [fixed v_hit_mutates].
         assert (Hc' : with_globals cached (make_globals c (g_globals g)) = fresh_tmpl g (t_ver cached)).
         { unfold with_globals, fresh_tmpl. rewrite Hname, Hsrc, Hawt. reflexivity. }
-        split; [split|].
-        * eapply hbound_cons_old; eauto.
-        * intros k id' Hin. cbn in Hin. apply Hsub in Hin. destruct (Hc _ _ Hin) as (t & Ht & Hg).
-          cbn. destruct (Z.eqb_spec id' id) as [->|].
-          -- eexists. split; [reflexivity|]. rewrite Hget in Ht. inversion Ht; subst.
-             apply good_with_globals; exact Hg.
-          -- exists t. split; assumption.
-        * split; [reflexivity|]. split.
-          -- intros HF k id' t Hin Hg. cbn in Hin, Hg. apply Hsub in Hin.
-             destruct (Z.eqb_spec id' id) as [->|].
-             ++ inversion Hg; subst. cbn. eapply HF; eauto.
-             ++ cbn. eapply HF; eauto.
-          -- assert (HA : auto_reload c = true -> detects c = true ->
-                          slookup (srckey g) (st_store s) = Some (t_ver cached)).
-             { intros Har Hdet. rewrite Har in Hup. unfold up_to_date, uptodate_call in Hup.
-               rewrite Hdet, Hmr, Hsrc in Hup. cbn in Hup.
-               destruct (slookup (srckey g) (st_store s)) as [v|]; [|discriminate].
-               inversion Hup as [Hv]. apply N.eqb_eq in Hv. congruence. }
-             assert (HB : Fresh s -> slookup (srckey g) (st_store s) = Some (t_ver cached)).
-             { intro HF. specialize (HF _ _ _ Ein Hget). rewrite Hsrc in HF. exact HF. }
-             rewrite Hc'. destruct (slookup (srckey g) (st_store s)) as [ver|] eqn:Hver.
-             ++ exists (t_ver cached). split; [reflexivity|]. split.
-                ** intros Har Hdet. specialize (HA Har Hdet). congruence.
-                ** intro HF. specialize (HB HF). congruence.
-             ++ right. exists (t_ver cached). split; [reflexivity|]. split.
-                ** intros Har Hdet. specialize (HA Har Hdet). discriminate.
-                ** intro HF. specialize (HB HF). discriminate.
+        assert (HA : auto_reload c = true -> detects c = true ->
+                     slookup (srckey g) (st_store s) = Some (t_ver cached)).
+        { intros Har Hdet. rewrite Har in Hup. unfold up_to_date, uptodate_call in Hup.
+          rewrite Hdet, Hmr, Hsrc in Hup. cbn in Hup.
+          destruct (slookup (srckey g) (st_store s)) as [v|]; [|discriminate].
+          inversion Hup as [Hv]. apply N.eqb_eq in Hv. congruence. }
+        assert (HB : Fresh s -> slookup (srckey g) (st_store s) = Some (t_ver cached)).
+        { intro HF. specialize (HF _ _ _ Ein Hget). rewrite Hsrc in HF. exact HF. }
+        assert (Hresp : forall r, r = RT (fresh_tmpl g (t_ver cached)) ->
+                  match slookup (srckey g) (st_store s) with
+                  | None => r = RE ENotFound \/ (exists ver', r = RT (fresh_tmpl g ver') /\ stale_only s)
+                  | Some ver => exists ver', r = RT (fresh_tmpl g ver') /\
+                                             (auto_reload c = true -> detects c = true -> ver' = ver) /\
+                                             (Fresh s -> ver' = ver)
+                  end).
+        { intros r ->. destruct (slookup (srckey g) (st_store s)) as [ver|] eqn:Hver.
+          - exists (t_ver cached). split; [reflexivity|]. split.
+            + intros Har Hdet. specialize (HA Har Hdet). congruence.
+            + intro HF. specialize (HB HF). congruence.
+          - right. exists (t_ver cached). split; [reflexivity|]. split.
+            + intros Har Hdet. specialize (HA Har Hdet). discriminate.
+            + intro HF. specialize (HB HF). discriminate. }
+        destruct (same_globals (t_globals cached) (make_globals c (g_globals g))) eqn:Hsame.
+        * apply same_globals_eq in Hsame.
+          assert (Hcc : cached = fresh_tmpl g (t_ver cached)).
+          { rewrite <- Hc'. unfold with_globals. rewrite <- Hsame. destruct cached; reflexivity. }
+          destruct (keep_path s cache1 ((id, cached) :: st_heap s) HI Hsub (heap_ext_same _ _ _ Hb Hget)) as [HI' HF'].
+          split; [exact HI'|]. split; [reflexivity|]. split; [exact HF'|]. apply Hresp. f_equal. exact Hcc.
+        * destruct (keep_path s cache1 ((hfresh (st_heap s), with_globals cached (make_globals c (g_globals g))) :: st_heap s)
+                              HI Hsub (heap_ext_fresh _ _ Hb)) as [HI' HF'].
+          split; [exact HI'|]. split; [reflexivity|]. split; [exact HF'|]. apply Hresp. f_equal. exact Hc'.
       + (* not up to date: load again *)
         unfold fresh_load. destruct (slookup (srckey g) (st_store s)) as [ver|] eqn:Hver.
         * destruct (load_path s g cache1 ver HI HP Hsub Hver) as [HI' HF'].
@@ -625,4 +670,93 @@ Proof.
                                       Edit (fst (srckey c g)) (snd (srckey c g)); Get g] -> x = g).
     { intros x Hx. cbn in Hx. repeat (destruct Hx as [Hx|Hx]; [try discriminate; inversion Hx; reflexivity|]). destruct Hx. }
     rewrite (E _ H1), (E _ H2). reflexivity.
+Qed.
+
+(* ------------------------------------------------------------------ earlier responses are not affected by later requests *)
+(* No hypothesis on keys, configuration or store is needed: the repaired mixin only ever ADDS objects. *)
+Ltac mono_branch Hb :=
+  let H := fresh "H" in
+  intro H; inversion H; subst; clear H; cbn [st_heap];
+  split;
+  [ first [ apply heap_ext_refl; exact Hb | apply heap_ext_fresh; exact Hb | eapply heap_ext_same; eassumption ]
+  | let t := fresh "t" in let E := fresh "E" in
+    intros t E;
+    first [ discriminate E
+          | inversion E; subst; eexists; split; [reflexivity|]; cbn [hget]; rewrite Z.eqb_refl; reflexivity ] ].
+
+Lemma check_cache_async_mono c s key gl load s' o :
+  hbound (st_heap s) -> check_cache_async fixed c s key gl load = (s', o) ->
+  heap_ext (st_heap s) (st_heap s') /\
+  (forall t, o = RT t -> exists id, handle s' o = Some id /\ hget id (st_heap s') = Some t).
+Proof.
+  intros Hb. unfold check_cache_async. cbn [fixed v_hit_mutates].
+  destruct (do_get (st_cache s) (enc key)) as [cache1 [id|]].
+  - destruct (hget id (st_heap s)) as [cached|] eqn:Hg; [|mono_branch Hb].
+    destruct (if auto_reload c then up_to_date c (st_store s) cached else Ok true) as [[|]|e|].
+    + destruct (same_globals (t_globals cached) gl); mono_branch Hb.
+    + destruct (load tt); mono_branch Hb.
+    + mono_branch Hb.
+    + mono_branch Hb.
+  - destruct (load tt); mono_branch Hb.
+Qed.
+
+Lemma check_cache_mono c s key gl load s' o :
+  hbound (st_heap s) -> check_cache fixed c s key gl load = (s', o) ->
+  heap_ext (st_heap s) (st_heap s') /\
+  (forall t, o = RT t -> exists id, handle s' o = Some id /\ hget id (st_heap s') = Some t).
+Proof.
+  intros Hb. unfold check_cache. cbn [fixed v_hit_mutates].
+  destruct (do_get (st_cache s) (enc key)) as [cache1 [id|]].
+  - destruct (hget id (st_heap s)) as [cached|] eqn:Hg; [|mono_branch Hb].
+    destruct (if auto_reload c then up_to_date_sync c (st_store s) cached else Ok true) as [[|]|e|].
+    + destruct (same_globals (t_globals cached) gl); mono_branch Hb.
+    + destruct (load tt); mono_branch Hb.
+    + mono_branch Hb.
+    + mono_branch Hb.
+  - destruct (load tt); mono_branch Hb.
+Qed.
+
+Lemma step_mono c s r s' o :
+  hbound (st_heap s) -> step fixed c s r = (s', o) ->
+  heap_ext (st_heap s) (st_heap s') /\
+  (forall t, o = RT t -> exists id, handle s' o = Some id /\ hget id (st_heap s') = Some t).
+Proof.
+  intros Hb. destruct r as [g|n ns|n ns]; cbn [step].
+  - destruct (g_mode g).
+    + unfold mixin_load. apply check_cache_mono. exact Hb.
+    + unfold mixin_load_async. cbn [fixed v_async_swap]. apply check_cache_async_mono. exact Hb.
+  - mono_branch Hb.
+  - mono_branch Hb.
+Qed.
+
+Lemma final_ext c rs : forall s, hbound (st_heap s) -> heap_ext (st_heap s) (st_heap (final fixed c s rs)).
+Proof.
+  induction rs as [|r rs IH]; intros s Hb; cbn [final]; [apply heap_ext_refl; exact Hb|].
+  destruct (step fixed c s r) as [s' o] eqn:E. cbn [fst].
+  destruct (step_mono _ _ _ _ _ Hb E) as [Hext _].
+  eapply heap_ext_trans; [exact Hext|]. apply IH. exact (proj1 Hext).
+Qed.
+
+Lemma reobserve_all c rs : forall s hfin,
+  hbound (st_heap s) -> heap_ext (st_heap (final fixed c s rs)) hfin ->
+  map (reobserve hfin) (run_h fixed c s rs) = run fixed c s rs.
+Proof.
+  induction rs as [|r rs IH]; intros s hfin Hb Hfin; [reflexivity|].
+  cbn [run_h run final] in *. destruct (step fixed c s r) as [s' o] eqn:E. cbn [fst map] in *.
+  destruct (step_mono _ _ _ _ _ Hb E) as [Hext Hobj].
+  f_equal; [|apply IH; [exact (proj1 Hext)|exact Hfin]].
+  destruct o as [t| | |]; try reflexivity.
+  destruct (Hobj t eq_refl) as (id & Hh & Hg). rewrite Hh. cbn [reobserve].
+  pose proof (final_ext c rs s' (proj1 Hext)) as [_ Hf]. destruct Hfin as [_ Hfin].
+  rewrite (Hfin _ _ (Hf _ _ Hg)). reflexivity.
+Qed.
+
+(* every template handed out during a history, observed again when the history is over, is what it was when
+   it was returned: later requests (other globals, reloads, evictions, edits, deletions) do not reach it *)
+Theorem earlier_responses_unaffected c st rs :
+  run_again fixed c (init c st) rs = run fixed c (init c st) rs.
+Proof.
+  unfold run_again. apply reobserve_all.
+  - intros id t [].
+  - apply heap_ext_refl. exact (proj1 (final_ext c rs (init c st) (fun id t (H : In (id, t) []) => match H with end))).
 Qed.
